@@ -226,10 +226,14 @@ def run_unit(unit, tier='quick', _extra_fns=None):
             head_ = head_[:m2.start()] if m2 else head_[:200]
             if not re.search(r'\b(invariant|invariant_except_break|decreases)\b', head_):
                 bare += 1
+            elif lm.group(1) == 'loop' and not re.search(r'\b(ensures|invariant_except_break)\b', head_):
+                # a `loop { .. break .. }` where the unit expected a `while`: the invariant it spliced does not say what holds at
+                # the exits, so nothing after the loop can be concluded
+                bare += 1
         oid_ = '%s.%s.%s' % (pid, U['short'], label_)
         fails_ = [o for o in obligations if o['status'] == 'fail' and (o['id'] == oid_ or o['id'].startswith(oid_ + '.'))]
         if bare and fails_:
-            undecided.append('verus %s: %s contains %d loop(s) this unit has no invariant for: %d failed obligation(s) may only mean '
+            undecided.append('verus %s: %s contains %d loop(s) this unit has no (exit) invariant for: %d failed obligation(s) may only mean '
                              'that the loop needs an invariant' % (unit, label_, bare, len(fails_)))
             obligations = [o for o in obligations if o not in fails_]
     if _extra_fns and any(o['status'] == 'fail' for o in obligations):
